@@ -4,6 +4,10 @@ import IrVerif.Model.PassFlags
 import IrVerif.Model.PassFlags2
 import IrVerif.Drive.Sort
 import IrVerif.Drive.Passes
+import IrVerif.Drive.Inline
+import IrVerif.Drive.Kernel
+import IrVerif.Model.PassFlags3
+import IrVerif.Model.PassKernel
 /-! Protocol handler for the C14 models (`passinfra.*`). -/
 open Lean IrVerif.Drive
 namespace IrVerif.Drive.PassInfra
@@ -370,6 +374,50 @@ def runUnusedFn (j : Json) : Except String Json := do
   return obj [("modified", toJson r.2), ("funcs", natsJ (r.1.funcs.map (·.1))),
     ("flag2", toJson r2.2), ("idem", toJson (decide (r2.1 = r.1)))]
 
+open IrVerif.PassFlags IrVerif.Inline IrVerif.Sem in
+/-- second deepening round: InlinePass on C05's model of the pass - flag, counter, measure before / after, the
+    hypotheses of the theorems, RESULT model and the second application -/
+def runInline (j : Json) : Except String Json := do
+  let model ← IrVerif.Drive.Inline.getFModel (← j.getObjVal? "model")
+  let critJ ← j.getObjVal? "crit"
+  let crit : OpId → Bool ← match critJ with
+    | .null => pure (fun _ => true)
+    | x => do
+      let l ← (← x.getArr?).toList.mapM IrVerif.Drive.Inline.getOpId
+      pure (fun op => l.contains op)
+  let run := inlineRun crit model
+  let out := inlineModel crit model
+  let out2 := inlineModel crit out
+  let same (a b : FModel) : Bool :=
+    toString (IrVerif.Drive.Inline.fmodelJ a) == toString (IrVerif.Drive.Inline.fmodelJ b)
+  return obj [("flag", toJson (inlFlag crit model)), ("count", toJson run.st.count),
+    ("stuck", toJson run.st.stuck), ("raised", toJson run.st.raised), ("nodup", toJson (funcIdsNodup model)),
+    ("valid", toJson (validF model)), ("runok", toJson (runOK crit model)),
+    ("before", toJson (inlCalls crit model)), ("after_run", toJson (inlCalls crit run.model)),
+    ("after", toJson (inlCalls crit out)), ("model", IrVerif.Drive.Inline.fmodelJ out),
+    ("run_is_model", toJson (same run.model out)),
+    ("flag2", toJson (inlFlag crit out)), ("idem", toJson (same out2 out)),
+    ("stuck2", toJson (inlineRun crit out).st.stuck)]
+
+open IrVerif.Kernel IrVerif.PassKernel in
+/-- second deepening round: RemoveUnusedNodes / IdentityElimination as programs over C01's kernel.  `ops` = the
+    history that builds the world (C01's alphabet); answer: what the pass changed (delta of the canonical dump),
+    whether it raised, the number of calls it issued, and whether replaying them gives the same world -/
+def runKPass (j : Json) : Except String Json := do
+  let ops ← (← getArr j "ops").mapM IrVerif.Drive.Kernel.parseAny
+  let w0 := ops.foldl (fun w o => (stepAny w o).1) World.empty
+  let g ← getNat j "g"
+  let funcs ← getNats j "funcs"
+  let fuel ← getNat j "fuel"
+  let exact := (j.getObjValAs? Bool "exact").toOption.getD false
+  let s ← match (← getStr j "pass") with
+    | "dce" => pure (dceModelK fuel w0 g funcs)
+    | "ie" => pure (ieModelK exact fuel w0 g funcs)
+    | p => throw s!"unknown kernel pass {p}"
+  return obj [("d", IrVerif.Drive.Kernel.deltaJ w0 s.w), ("raised", toJson s.raised),
+    ("calls", toJson s.trace.length), ("replay_same", toJson (decide (replay w0 s.trace.reverse = s.w))),
+    ("late", toJson (decide (s.w.late = w0.late)))]
+
 def handle : Handler := fun m j =>
   match m with
   | "passinfra.run" => some (runScripted j)
@@ -386,6 +434,8 @@ def handle : Handler := fun m j =>
   | "passinfra.flags2" => some (runFlags2 j)
   | "passinfra.opsets" => some (runOpsets j)
   | "passinfra.unusedfn" => some (runUnusedFn j)
+  | "passinfra.inline" => some (runInline j)
+  | "passinfra.kpass" => some (runKPass j)
   | "passinfra.sorted" => some do
     let m ← IrVerif.Drive.Passes.getModel (← j.getObjVal? "model")
     return obj [("sorted", toJson (IrVerif.PassFlags.sortedModel m))]
